@@ -840,6 +840,14 @@ def m_C10(v):
             d = addrs.get(c["caller"])
             if d and d.get("bl") == "1":
                 out.append((i, "C10 a blacklisted address confirmed tickets"))
+        if c["ep"] == "unblacklist" and R["st"] != "ok" and "storage decode error" in R.get("msg", ""):
+            # "where un-blacklisting is offered it restores ...": a rejection because the contract cannot decode the
+            # record it parked (or failed to park) at blacklisting time is never one of the legitimate reasons
+            # (stage, permission, address not blacklisted, reservation cannot be restored)
+            users = [int(x) for x in c["args"][1:]]
+            stuck = [u for u in users if addrs.get(u, {}).get("bl") == "1"]
+            out.append((i, f"C10 un-blacklisting {users} rejected with a storage decode error: the blacklisted "
+                           f"address(es) {stuck} can never be un-blacklisted ({R.get('msg', '')[:80]})"))
     return out
 
 
